@@ -9,11 +9,14 @@ handlers for C14 (`harness/h_params.cpp`): every answer is computed from the tab
 * `params_fields S`            → `n name:kind …` (sorted)           the data members the translator found
 * `params_roundtrip S f v`     → `f=v` | `f=default` | `not-exported` | `ill-typed` | `invalid` (enum member, unknown name)
                                  construct from `{f: v}`, export with `get`, read `f` back
+* `params_nested R c₁=T₁ … f v` → `c₁.….f=v` | `…=default` | `not-exported` | `ill-typed`
+                                 nested configuration along a chain of child members (dotted paths of `get`)
 * `params_export_keys S`       → `n k₁ … kₙ`                        value keys of the default-constructed export, in order
 * `params_unknown S k`         → `reported` | `accepted` | `ill-typed`
 * `params_enum_print E e`      → the text `operator<<` prints
 * `params_enum_parse E s`      → enumerator | `invalid`             (`invalid` = `std::invalid_argument`)
-* `params_runtime E e`         → `same` | `unsupported`             has every throwing wrapper switch a case for `e`?
+* `params_runtime E e`         → `same` | `unsupported` | `invalid`  does the printed name of `e` parse, and has every
+                                 throwing wrapper switch a case for the parsed enumerator?
 
 `ill-typed` = the struct's import/export macros do not match the member kinds, i.e. the C++ does not compile when
 instantiated (the harness probes such structs in a separate translation unit).
@@ -44,6 +47,33 @@ def exportKeys (t : ParamTable) : List String :=
   let out := t.exportT ParamTable.rawChildExp (t.importT dflt PTree.empty) PTree.empty
   (out.kids.filter (fun kc => kc.2.data ≠ "")).map (·.1)
 
+/-- `c=table` tokens of a `params_nested` op -/
+def parseChain : List String → Option (List (String × String))
+  | [] => some []
+  | tk :: rest => match tk.splitOn "=" with
+    | [c, tn] => (parseChain rest).map ((c, tn) :: ·)
+    | _ => none
+
+def nested (t : ParamTable) (chain : List (String × String)) (f v : String) : String :=
+  let tabs := chain.map fun (_, tn) => findTable tn
+  if tabs.any Option.isNone then badInput else
+  let all := t :: tabs.filterMap id
+  if all.any (fun x => !x.wellTyped) then "ill-typed" else
+  match all.getLast? with
+  | none => badInput
+  | some last =>
+    match last.kindOf f with
+    | none => badInput
+    | some Kind.child => badInput
+    | some _ =>
+      match ParamTable.exportAlong findTable dflt t chain f v [] PTree.empty with
+      | none => badInput
+      | some out =>
+        let path := chain.map (·.1) ++ [f]
+        match out.getPath? path with
+        | some x => ".".intercalate path ++ "=" ++ x
+        | none => "not-exported"
+
 def two : P (String × String) := do let a ← tok; let b ← tok; pure (a, b)
 def three : P (String × String × String) := do let a ← tok; let b ← tok; let c ← tok; pure (a, b, c)
 
@@ -71,6 +101,17 @@ def handle (op : String) (args : List String) : Option String :=
           | none => badInput
           | some E => if (E.parse v).isNone then "invalid" else roundtrip t f v
         | some _ => if !t.wellTyped then "ill-typed" else roundtrip t f v
+  | "params_nested" =>
+      -- params_nested Root c₁=T₁ … cₖ=Tₖ field value
+      match args with
+      | root :: rest =>
+        if rest.length < 2 then some badInput else
+        let v := rest.getLast!
+        let f := rest.dropLast.getLast!
+        match findTable root, parseChain (rest.dropLast.dropLast) with
+        | some t, some chain => some (nested t chain f v)
+        | _, _ => some badInput
+      | [] => some badInput
   | "params_export_keys" => withArgs tok args fun s =>
       match findTable s with
       | none => badInput
@@ -92,7 +133,12 @@ def handle (op : String) (args : List String) : Option String :=
   | "params_runtime" => withArgs two args fun (e, x) =>
       match findEnum e with
       | none => badInput
-      | some E => if !E.values.contains x then badInput else if E.covered x then "same" else "unsupported"
+      | some E =>
+        if !E.values.contains x then badInput else
+        -- the harness configures the wrapper with the text `operator<<` prints for the enumerator
+        match E.parse (E.print x) with
+        | none => "invalid"
+        | some e => if E.covered e then "same" else "unsupported"
   | _ => none
 
 end Amgcl.Driver.Params
